@@ -17,7 +17,7 @@ core.setup_paths()
 
 KINDS = [(e, g) for e in ("euler", "tauleap", "gillespie") for g in ("grid", "graph")]
 POLICIES = ["on_t_sample", "on_iteration", "on_interval", "no_sampling"]
-COST = {"I": 1, "N1": 1, "N2": 2, "N3": 3, "R0": 1, "R1": 1, "R2": 2, "R3": 3, "RU": 10 ** 6, "N0": 0}
+COST = {"I": 1, "N1": 1, "N2": 2, "N3": 3, "R0": 1, "R1": 1, "R2": 2, "R3": 3, "RU": 10 ** 6, "N0": 0, "O": 0}
 
 
 def script_spec(engine, gtype, policy, n, seed=11, variant=None):
@@ -94,10 +94,12 @@ def baseline(sc_json, engine):
         n += 1
         if not e.iterate():
             break
+    o0 = e.get_output()           # what the sampling policy alone recorded
+    pre = (o0.t.value.tobytes(), o0.data.value.tobytes())
     e.sample()
     o = e.get_output()
     e.finalize()
-    return (o.t.value.tobytes(), o.data.value.tobytes(), n)
+    return (o.t.value.tobytes(), o.data.value.tobytes(), n, pre)
 
 
 _PROBE = {}
@@ -145,6 +147,9 @@ def drive(e, ops, pr, n, fixed_dt=None):
         before_u = pr.n_uniform() if pr else None
         if op == "I":
             r = e.iterate()
+        elif op == "O":
+            e.get_output()          # a look at the trajectory so far must not change what comes later
+            r = True
         elif op[0] == "N":
             r = e.iterate_n(int(op[1]))
         elif op == "R0":
@@ -170,6 +175,11 @@ def drive(e, ops, pr, n, fixed_dt=None):
     while r and k < 10000:      # ... or late: the iteration sequence is consumed to its end one step at a time
         r = e.iterate()
         k += 1
+    if ops and ops[-1][0] == "R" or "O" in ops:
+        o0 = e.get_output()     # the trajectory as the last driver call left it, before the explicit final sample
+        drive.pre = (o0.t.value.tobytes(), o0.data.value.tobytes())
+    else:
+        drive.pre = None
     e.sample()
     o = e.get_output()
     return log, (o.t.value.tobytes(), o.data.value.tobytes())
@@ -183,7 +193,7 @@ def check_schedule(case):
     base = get_baseline(sc, engine)
     if base[0] != "ok":
         return [("C08:baseline:%s" % base[0], str(base[1]))]
-    bt, bd, bn = base[1]
+    bt, bd, bn, bpre = base[1]
     if bn != n:
         return [("C08:baseline:iterations", "the catalogue script completes after %d iterate() calls, designed for %d" % (bn, n))]
     ops = case["ops"]
@@ -209,6 +219,8 @@ def check_schedule(case):
         exp_ret = remaining_after > 0
         if remaining <= 0:
             exp_ret = False
+        if op == "O":
+            continue
         if consumed is not None and op[0] in "IN" and consumed != exp_consumed and remaining > 0:
             # iterate() is one iteration and iterate_n(k) a batch of k; the length of a wall-clock-bounded slice is not pinned
             out.append(("C08:schedule:%s:iterations-consumed" % op[0], "schedule %s: %s performed %d iterations, expected %d" % (ops, op, consumed, exp_consumed)))
@@ -218,6 +230,10 @@ def check_schedule(case):
             # fixes the trajectory); counted here, decided there
             case["_ret_mismatch"] = case.get("_ret_mismatch", 0) + 1
         remaining = remaining_after
+    if drive.pre is not None and drive.pre != bpre:
+        import numpy as np
+        out.append(("C08:schedule:%s:trajectory-before-the-final-sample-differs-from-baseline" % engine,
+                    "schedule %s (%s, %s, %s): times %r vs baseline %r" % (ops, engine, gtype, policy, np.frombuffer(drive.pre[0]).tolist()[:8], np.frombuffer(bpre[0]).tolist()[:8])))
     if t != bt or d != bd:
         import numpy as np
         out.append(("C08:schedule:%s:trajectory-differs-from-baseline" % engine,
@@ -250,7 +266,7 @@ def check_history(case):
     base = get_baseline(sc, this[0])
     if base[0] != "ok":
         return [("C08:baseline:%s" % base[0], str(base[1]))]
-    bt, bd, bn = base[1]
+    bt, bd, bn, bpre = base[1]
     try:
         script = models.build_script(sc)
         e_prev = None
@@ -362,7 +378,17 @@ def check_stored(case):
         script = models.build_script(sc)
         o1 = simulate_script(script, eng.make_engine(engine))
         ref = (o1.t.value.tobytes(), o1.data.value.tobytes())
-        if side == "caller-edited":
+        if side == "trajectory-system-edited":
+            sy = o1.system
+            if how == "set_state":
+                sy.set_state(0, 0, 77.0)
+            elif how == "set_chemostat":
+                sy.set_chemostat(0, 0, True)
+            else:
+                sy.state.value[1] = 55.0
+            o2 = simulate_script(o1.script, eng.make_engine(engine))
+            who = "the script stored in the trajectory, after the trajectory's system was edited in place (%s)" % how
+        elif side == "caller-edited":
             _mutate(script, how)
             o2 = simulate_script(o1.script, eng.make_engine(engine))
             who = "the script stored in the trajectory, after the caller's script object was edited in place (%s)" % how
@@ -430,7 +456,13 @@ def check_given_seed(case):
             if script.rng_seed != case["given_seed"]:
                 out.append(("C08:seed:given-seed-not-kept", "rng_seed=%r became %r" % (case["given_seed"], script.rng_seed)))
                 return out
-            (t, d), o = run_plain(eng.make_engine(engine), script)
+            if case.get("cgmap"):
+                from strengths.simulate import simulate_script
+                ncell = len(sc["system"]["state"]) // 2
+                o = simulate_script(script, eng.make_engine(engine), cgmap=list(range(ncell)))
+                t, d = o.t.value.tobytes(), o.data.value.tobytes()
+            else:
+                (t, d), o = run_plain(eng.make_engine(engine), script)
             res.append((t, d))
         if res[0] != res[1]:
             out.append(("C08:seed:same-description-same-seed-different-trajectory:%s" % engine, "seed %r" % case["given_seed"]))
@@ -509,6 +541,14 @@ def gen_cases(tier, seed0):
             for pos in range(len(ops) + 1):
                 n0.append({"sub": "n0", "engine": e, "gtype": g, "policy": "on_iteration", "n": 2, "ops": ops[:pos] + ["N0"] + ops[pos:]})
     cases += n0
+    # get_output() inserted at every position of every schedule of a 3-iteration run (incl. before run slices)
+    s3 = schedules(3, ops=("I", "N2", "R0", "RU"))
+    peek = []
+    for (e, g) in KINDS:
+        for ops in s3:
+            for pos in range(1, len(ops) + 1):
+                peek.append({"sub": "n0", "engine": e, "gtype": g, "policy": "on_iteration", "n": 3, "ops": ops[:pos] + ["O"] + ops[pos:]})
+    cases += peek
     hist = []
     for prev in [None] + [list(k) for k in KINDS]:
         for this in KINDS:
@@ -539,6 +579,8 @@ def gen_cases(tier, seed0):
     for (e, g) in KINDS:
         for sd in (0, 1, 2 ** 31 - 1, 2 ** 31, 2 ** 32 - 1):
             given.append({"sub": "given-seed", "engine": e, "gtype": g, "given_seed": sd})
+            if g == "grid":
+                given.append({"sub": "given-seed", "engine": e, "gtype": g, "given_seed": sd, "cgmap": True})
     cases += given
     stored = []
     for (e, g) in KINDS:
@@ -546,6 +588,8 @@ def gen_cases(tier, seed0):
             for how in MUTATIONS:
                 for side in ("caller-edited", "stored-edited"):
                     stored.append({"sub": "stored", "engine": e, "gtype": g, "policy": p, "mutation": how, "side": side})
+                if how in ("set_state", "set_chemostat", "state-array-item"):
+                    stored.append({"sub": "stored", "engine": e, "gtype": g, "policy": p, "mutation": how, "side": "trajectory-system-edited"})
     cases += stored
     wrap = []
     for (e, g) in KINDS:
@@ -559,6 +603,7 @@ def gen_cases(tier, seed0):
               nsch * len(scripts)),
              ("driver schedules of a 7-iteration run (%d each) x 3 scripts" % (len(n7) // 3 if n7 else 0), len(n7)),
              ("iterate_n(0) inserted at every position of every schedule of a 2-iteration run x 6 kinds", len(n0)),
+             ("get_output() inserted at every later position of every schedule (iterate / iterate_n(2) / run(0) / run-to-completion) of a 3-iteration run x 6 kinds", len(peek)),
              ("process histories: (previous kind or none) x this kind x same/new object x previous finalized or not x {default, non-default output units, redistributed real-valued state, other boundary setting, species order, denormal amounts, other geometry}, 3 repetitions of the same script object", len(hist)),
              ("seeds: rng_seed=None drawn under random.seed(r), stored script reproduces, neighbour seed differs (stochastic) / "
               "does not (Euler): 24 scripts x seed window", len(seeds)),
